@@ -196,7 +196,7 @@ EXT2 = {
 EXT3 = {
     "C02": "Later rounds: make_traceless variants of the graph embeddings.",
     "C05": "Later rounds: post-selected measurements on entangled bosonic cat states (spectator judged against the dense Fock reference).",
-    "C06": "Later rounds: the rejection sampler of the bosonic simulator on non-Gaussian states (real- and complex-representation cat states, Fock(2), GKP; alone or entangled; either mode; homodyne at 3 angles and heterodyne): every peak the sampler can pick and 44 answered heights per phase-space point locate the acceptance probability; acceptance x proposal density (reconstructed from the arguments of the draws) must be proportional to the Born density; returned value and conditional mixture for the accepted point.",
+    "C06": "Later rounds: the rejection sampler of the bosonic simulator on non-Gaussian states (real- and complex-representation cat states, Fock(2), GKP; alone or entangled; either mode; homodyne at 3 angles and heterodyne): every peak the sampler can pick and 44 answered heights per phase-space point locate the acceptance probability; acceptance x proposal density (reconstructed from the arguments of the draws) must be proportional to the Born density; returned value and conditional mixture for the accepted point. Measurements after a mode deletion: every measurement of a menu on a surviving mode of a 3-mode register against the same measurement on a fresh two-mode twin (all simulators, every deleted mode); column order of Result.samples on a 12-mode register.",
     "C07": "Later rounds: GKP states on the Fock simulator.",
     "C09": "Later rounds: the state after reset + re-run must equal a fresh engine's.",
     "C10": "Later rounds: measured outcomes equal to zero.",
